@@ -429,6 +429,39 @@ impl LockFreeMemoryPool {
     }
 
     /// Get pool statistics (if enabled)
+    /// Verification hook: (base address, size) of the backing arena.
+    #[cfg(feature = "verif-hooks")]
+    pub fn verif_arena(&self) -> (usize, usize) {
+        (self.memory.as_ptr() as usize, self.config.memory_size)
+    }
+
+    /// Verification hook: walk every fast-bin free list (quiescent use only).
+    /// Returns (bin block size, offsets) per non-empty bin, or Err on a cycle /
+    /// out-of-arena / misaligned link.
+    #[cfg(feature = "verif-hooks")]
+    pub fn verif_walk_free_lists(&self) -> std::result::Result<Vec<(usize, Vec<u32>)>, String> {
+        let mut out = Vec::new();
+        for (i, bin) in self.fast_bins.iter().enumerate() {
+            let (mut off, _) = Self::unpack_head(bin.head.load(Ordering::Acquire));
+            let mut offs = Vec::new();
+            let mut seen = std::collections::HashSet::new();
+            while off != LIST_TAIL {
+                if off as usize % ALIGN_SIZE != 0 || off as usize + 4 > self.config.memory_size {
+                    return Err(format!("bin {} link {} misaligned or outside arena", i, off));
+                }
+                if !seen.insert(off) {
+                    return Err(format!("bin {} cycle at offset {}", i, off));
+                }
+                offs.push(off);
+                off = unsafe { *(self.memory.as_ptr().add(off as usize) as *const u32) };
+            }
+            if !offs.is_empty() {
+                out.push((FAST_BIN_SIZES[i], offs));
+            }
+        }
+        Ok(out)
+    }
+
     pub fn stats(&self) -> Option<Arc<LockFreePoolStats>> {
         self.stats.clone()
     }
@@ -448,6 +481,8 @@ impl LockFreeMemoryPool {
                 // Empty bin, need to allocate new memory
                 return self.allocate_new_block(size);
             }
+            #[cfg(feature = "verif-hooks")]
+            crate::verif_hooks::sched_point(crate::verif_hooks::site::LF_ALLOC_AFTER_HEAD_LOAD);
 
             // Load next pointer from current head
             let next_offset = unsafe {
@@ -457,6 +492,8 @@ impl LockFreeMemoryPool {
 
             // ABA-SAFE: Pack next offset with INCREMENTED generation counter
             // This prevents ABA: even if offset A→B→A, generation won't match
+            #[cfg(feature = "verif-hooks")]
+            crate::verif_hooks::sched_point(crate::verif_hooks::site::LF_ALLOC_AFTER_NEXT_READ);
             let next_packed = Self::pack_head(next_offset, current_gen.wrapping_add(1));
 
             // Try to update head atomically
@@ -512,6 +549,8 @@ impl LockFreeMemoryPool {
             unsafe {
                 *(ptr.as_ptr() as *mut u32) = current_offset;
             }
+            #[cfg(feature = "verif-hooks")]
+            crate::verif_hooks::sched_point(crate::verif_hooks::site::LF_FREE_AFTER_LINK);
 
             // ABA-SAFE: Pack new offset with INCREMENTED generation counter
             let new_packed = Self::pack_head(offset, current_gen.wrapping_add(1));
